@@ -159,19 +159,34 @@ Theorem dot_1d_correct :
 Proof. exact dot_1d_correct_proof. Qed.
 Print Assumptions dot_1d_correct.
 
-(* _dot_csc_ndarray_sparse (GCXS with compressed axis 1 times ndarray, sparse result).  The statements
-   corresponding to (2) and (3),
-     forall m n p a b, csr_wfb n m a = true ->
-       exists r, dot_csc_ndarray_sparse m n p a b = KOk r /\ csr_wfb p m r = true,
-   are FALSE of the code as it stands (two findings of this check): *)
-Theorem csc_ndarray_count_exact_refuted :
-  exists (m n p : Z) (a : csr Z) (b : Z -> Z -> Z),
-    csr_wfb n m a = true /\ dot_csc_ndarray_sparse Z 0 Z.add Z.mul Z.eqb m n p a b = KTail.
-Proof. exact csc_ndarray_count_exact_refuted_proof. Qed.
-Print Assumptions csc_ndarray_count_exact_refuted.
+(* _dot_csc_ndarray_sparse (GCXS with compressed axis 1 times ndarray, sparse result; a is the CSC triple of the
+   m x n_in left operand, b the dense n_in x p operand): it returns, the buffers sized by _csc_ndarray_count_nnz are
+   exactly filled (csc_ndarray_count_exact), the result is a well-formed CSC triple — positions of every column
+   strictly increasing (csc_ndarray_rows_sorted) —, and it means the matrix product (csc_ndarray_den).  (Findings of
+   this check, repaired in /repo: the statements were false before.)  veqb decides `!= 0`. *)
+Theorem csc_ndarray_count_exact :
+  forall (V : Type) (vzero : V) (vadd vmul : V -> V -> V) (veqb : V -> V -> bool), comm_semiring vzero vadd vmul ->
+  (forall x, veqb x vzero = true -> x = vzero) ->
+  forall (a : csr V) (b : Z -> Z -> V) (n_in m p : Z), csr_wfb n_in m a = true -> 0 <= p ->
+    exists r, dot_csc_ndarray_sparse V vzero vadd vmul veqb m n_in p a b = KOk r
+      /\ Z.of_nat (length (m_data r)) = fst (csc_ndarray_count_nnz V vzero veqb m n_in p (m_indices a) (m_indptr a) b).
+Proof. exact csc_ndarray_count_exact_proof. Qed.
+Print Assumptions csc_ndarray_count_exact.
 
-Theorem csc_ndarray_rows_sorted_refuted :
-  exists (m n p : Z) (a : csr Z) (b : Z -> Z -> Z) (r : csr Z),
-    csr_wfb n m a = true /\ dot_csc_ndarray_sparse Z 0 Z.add Z.mul Z.eqb m n p a b = KOk r /\ csr_wfb p m r = false.
-Proof. exact csc_ndarray_rows_sorted_refuted_proof. Qed.
-Print Assumptions csc_ndarray_rows_sorted_refuted.
+Theorem csc_ndarray_rows_sorted :
+  forall (V : Type) (vzero : V) (vadd vmul : V -> V -> V) (veqb : V -> V -> bool), comm_semiring vzero vadd vmul ->
+  (forall x, veqb x vzero = true -> x = vzero) ->
+  forall (a : csr V) (b : Z -> Z -> V) (n_in m p : Z), csr_wfb n_in m a = true -> 0 <= p ->
+    exists r, dot_csc_ndarray_sparse V vzero vadd vmul veqb m n_in p a b = KOk r /\ csr_wfb p m r = true.
+Proof. exact csc_ndarray_rows_sorted_proof. Qed.
+Print Assumptions csc_ndarray_rows_sorted.
+
+Theorem csc_ndarray_den :
+  forall (V : Type) (vzero : V) (vadd vmul : V -> V -> V) (veqb : V -> V -> bool), comm_semiring vzero vadd vmul ->
+  (forall x, veqb x vzero = true -> x = vzero) ->
+  forall (a : csr V) (b : Z -> Z -> V) (n_in m p : Z), csr_wfb n_in m a = true -> 0 <= p ->
+    exists r, dot_csc_ndarray_sparse V vzero vadd vmul veqb m n_in p a b = KOk r
+      /\ forall i k, 0 <= i < p ->
+           csr_den V vzero r i k = np_matmul2 V vzero vadd vmul n_in (fun k j => csr_den V vzero a j k) b k i.
+Proof. exact csc_ndarray_den_proof. Qed.
+Print Assumptions csc_ndarray_den.
